@@ -123,10 +123,12 @@ impl ClientTicks {
     }
 
     /// Removes a despawned or hidden entity from tracking by this client.
-    pub(crate) fn remove_entity(&mut self, entity: Entity) {
-        self.mutation_ticks.remove(&entity);
+    ///
+    /// Returns `true` if the entity was sent to this client before.
+    pub(crate) fn remove_entity(&mut self, entity: Entity) -> bool {
         // We don't clean up `self.mutations` for efficiency reasons.
         // `Self::acknowledge` will properly ignore despawned entities.
+        self.mutation_ticks.remove(&entity).is_some()
     }
 
     /// Removes all mutate messages older then `min_timestamp`.
